@@ -3,3 +3,24 @@ open XotModel.Props
 #print axioms C11_insert_existing_keeps_nodes
 #print axioms C11_remove_absent
 #print axioms C11_nonelement_panics
+#print axioms C11_refine_insert
+#print axioms C11_insert_nodes
+#print axioms C11_refine_remove
+#print axioms C11_refine_clear
+#print axioms C11_refine_insert_node
+#print axioms C11_any_append_entry
+#print axioms C11_other_view_untouched
+#print axioms C11_children_untouched
+#print axioms C11_children_untouched_node
+#print axioms C11_unique_keys
+#print axioms C11_reference_is_a_map
+#print axioms C11_reads
+#print axioms C11_histories
+#print axioms C11_step
+#print axioms C11_entry_or_insert
+#print axioms C11_entry_or_default
+#print axioms C11_entry_and_modify
+#print axioms C11_entry_and_modify_or_insert
+#print axioms C11_entry_insert_remove
+#print axioms C11_get_mut
+#print axioms C11_order
